@@ -2854,12 +2854,11 @@ func (uconn *UConn) ApplyPreset(p *ClientHelloSpec) error {
 	for i, e := range uconn.Extensions {
 		switch ext := e.(type) {
 		case *SNIExtension:
-			if ext.ServerName == "" || uconn.config.EncryptedClientHelloConfigList != nil {
-				// The name filled in below belongs to this connection: keep it out of
-				// the caller's spec, which may be applied to further connections.
-				ext = &SNIExtension{ServerName: ext.ServerName}
-				uconn.Extensions[i] = ext
-			}
+			// The name filled in below, or set later with SetSNI, belongs to this
+			// connection: keep it out of the caller's spec, which may be applied to
+			// further connections.
+			ext = &SNIExtension{ServerName: ext.ServerName}
+			uconn.Extensions[i] = ext
 			if ext.ServerName == "" {
 				ext.ServerName = uconn.config.ServerName
 			}
